@@ -17,7 +17,9 @@ var poolDecs = []Val{dv("0.0"), dv("1.0"), dv("1.00"), dv("-1.0"), dv("0.5"), dv
 	dv("0.99999999999999999"), dv("1.00000000000000001"), dv("123456789012345678901234567890.123456789"), dv("0.000000000000000000000000000001"),
 	dv("2147483647.0"), dv("2147483648.0"), dv("-2147483649.0"), dv("9999999999.9"), dv("100.0"), dv("1000.0"), dv("-1000.0"),
 	// beyond the float64 range in both directions (an intermediate float64 is ±Inf or 0), and just inside it
-	dv("1" + strings.Repeat("0", 310) + ".0"), dv("-1" + strings.Repeat("0", 310) + ".0"), dv("17" + strings.Repeat("9", 307) + ".5"), dv("0." + strings.Repeat("0", 330) + "1")}
+	dv("1" + strings.Repeat("0", 310) + ".0"), dv("-1" + strings.Repeat("0", 310) + ".0"), dv("17" + strings.Repeat("9", 307) + ".5"), dv("0." + strings.Repeat("0", 330) + "1"),
+	// 18..21 fraction digits (one more or less than the digits of a 64-bit coefficient)
+	dv("0.123456789012345678"), dv("0.1234567890123456789"), dv("0.0000000000000000001"), dv("0.00000000000000000005"), dv("-0.12345678901234567891"), dv("7.000000000000000000001")}
 
 var poolStrs = []Val{sv(""), sv("a"), sv("abc"), sv("ABC"), sv("héllo"), sv("日本語"), sv("😀x"), sv("é"), sv("a b"), sv(" lead"), sv("O'Neil"), sv(`back\slash`),
 	sv("1"), sv("1.0"), sv("-5"), sv("+1"), sv("1e3"), sv("2e47483647"), sv("true"), sv("T"), sv("false"), sv("2020-01-01"), sv("2020-02-30"), sv("2020-01-01T10:00:00Z"), sv("10:00:00"), sv("24:00"),
